@@ -426,6 +426,20 @@ func runCase(c *wk.Ctx, i int) {
 					}
 				} else {
 					M = txM
+					// all of it is visible at once, right now (not only after background work has settled)
+					for q := 0; q < 25; q++ {
+						k := kg.Pick(r)
+						want, live := txM.Get(k)
+						got, gerr := db.Get(k, nil)
+						if gerr != nil && gerr != leveldb.ErrNotFound {
+							continue
+						}
+						if live && !bytes.Equal(got, want) || !live && gerr == nil {
+							fail("atomicity:not-visible-right-after-commit", fmt.Sprintf("immediately after Commit returned, Get(%x) = %.40x (err %v) but the committed state says %.40x live=%v", k, got, gerr, want, live), nil)
+							return
+						}
+					}
+					c.Count("reads_right_after_commit", 25)
 				}
 			case "discard":
 				tr.Discard()
